@@ -21,4 +21,5 @@ def run(ctx):
     chains = canon.check_derivations(ctx, "C11/D3")
     # premise of D1: the writer's only string encoder is serde_json::to_string
     canon.check_writer(ctx, "C11/D1", "C11/D1")
+    canon.check_member_order(ctx, "C11/D1")
     canon.check_olpc(ctx, chains, "C11/D1", "C11/D2")
